@@ -342,6 +342,8 @@ def benign_sweep(res: Result, only: str | None = None) -> int:
     """No fault at all: a well-behaved device answers while user listeners call back into the library from inside the dispatch
     (unsubscribe themselves, unsubscribe each other, start a new request).  Every awaited request then ends with its result and the
     connection stays up - an error would have no cause."""
+    from aioesphomeapi.core import APIConnectionError as _ACE0
+
     from ..world import ConnWorld, mk
 
     pb = env.pb()
@@ -419,6 +421,69 @@ def benign_sweep(res: Result, only: str | None = None) -> int:
                             res.add(key, f"C09:no-cause:{bad} (listener {lst}; callbacks seen {seen})", d)
                     finally:
                         w.close()
+    # the stop callback reconnects at once (no timer in between) and the session ends through the application's own disconnect(): both
+    # the disconnect() and the new connect() are awaited operations and end with their result
+    for force in (False, True):
+        for ender in ("disconnect", "device-request", "eof"):
+            key = f"benign:plain:reconnect-in-stop-callback:{ender}:{'force' if force else 'graceful'}"
+            if only is not None and key != only:
+                continue
+            if ender != "disconnect" and force:
+                continue
+            w = ConnWorld(client=True, keepalive=1e6, login=True)
+            try:
+                cl = w.client
+                n_conn = [0]
+
+                async def on_stop(expected: bool) -> None:
+                    if n_conn[0] < 2:
+                        n_conn[0] += 1
+                        w.spawn(f"reconnect{n_conn[0]}", lambda: cl.connect(on_stop=on_stop, login=True))
+
+                w.spawn("connect", lambda: cl.connect(on_stop=on_stop, login=True))
+                w.drain()
+                w.io_connect(w.sock, 0)
+                w.drain()
+                w.io_chunk(w.sock, w.dframe(w.hello_resp()) + w.dframe(w.connect_resp()))
+                w.drain()
+                if w.outcome("connect") != "ok":
+                    raise HarnessError(f"{key}: connect failed {w.results}")
+                first = w.sock
+                if ender == "disconnect":
+                    w.spawn("disc", lambda: cl.disconnect(force=force))
+                    w.drain()
+                    if not force and not first.closed:
+                        w.io_chunk(first, w.dframe(mk("DisconnectResponse")))
+                        w.drain()
+                elif ender == "device-request":
+                    w.io_chunk(first, w.dframe(mk("DisconnectRequest")))
+                    w.drain()
+                else:
+                    w.io_eof(first)
+                    w.drain()
+                # the new attempt: TCP ok, hello, login
+                for s2 in list(w.net.connecting()):
+                    w.io_connect(s2, 0)
+                w.drain()
+                live = [x for x in w.net.sockets if not x.closed and x is not first]
+                for s2 in live:
+                    w.io_chunk(s2, w.dframe(w.hello_resp()) + w.dframe(w.connect_resp()))
+                w.drain()
+                w.run_timers(w.loop.time() + 100.0)
+                n += 1
+                d = {"key": key}
+                for name in list(w.tasks):
+                    r = w.results.get(name)
+                    if r is None:
+                        res.add(key, f"C09:hang:{name} never ended (session ended by {ender}, stop callback reconnects at once)", d)
+                    elif r[0] == "exc" and not isinstance(r[1], _ACE0):
+                        res.add(key, f"C09:unclassified:{name} raised {type(r[1]).__name__}: {str(r[1])[:90]} (session ended by {ender}, stop callback reconnects at once)", d)
+                    elif r[0] != "ok" and name.startswith("reconnect"):
+                        res.add(key, f"C09:no-cause:{name} ended {w.outcome(name)} although the device accepted the new connection", d)
+                if "reconnect1" not in w.tasks:
+                    res.add(key, "C09:no-cause:the stop callback was never invoked", d)
+            finally:
+                w.close()
     # request sizes: a request-response call whose request is small, large, at and beyond what one Noise frame can carry (65515 payload
     # bytes); beyond it the device cannot make sense of the frame and drops the link.  Result or classified error, never a raw one.
     from aioesphomeapi.core import APIConnectionError as _ACE
